@@ -471,10 +471,40 @@ def struct_eq(a, b, depth=0):
     return all(struct_eq(x, y, depth + 1) for x, y in zip(oa, ob))
 
 
+_CONSTANT_VALUE_CLASSES = {"Zero", "IntValue", "RealValue", "FloatValue", "ComplexValue", "ScalarValue", "Identity", "PermutationSymbol"}
+
+
+def cellwise_constant(o) -> bool:
+    """ufl.checks.is_cellwise_constant on abstract nodes: every terminal under the node is constant over a cell
+    (terminals answer by their `cellwise_constant` tag, literal constants are, untagged symbols are general fields)"""
+    seen = {}
+
+    def rec(t):
+        if not isinstance(t, T):
+            return True  # multi-indices, labels
+        k = id(t)
+        if k in seen:
+            return seen[k]
+        tags = t.tags
+        if "cellwise_constant" in tags:
+            r = bool(tags["cellwise_constant"])
+        elif tags.get("ufl_class") in _CONSTANT_VALUE_CLASSES:
+            r = True
+        elif tags.get("ufl_operands"):
+            r = all(rec(a) for a in tags["ufl_operands"])
+        else:
+            r = False
+        seen[k] = r
+        return r
+
+    return rec(as_T(o))
+
+
 def install(ip: Interp, gdim=None, tdim=None):
     cm, ov = base_models(gdim, tdim)
     ip.class_models.update(cm)
     ip.overrides.update(ov)
+    ip.overrides.setdefault("is_cellwise_constant", cellwise_constant)
     from .lift import ModelledClass
 
     try:
